@@ -369,6 +369,10 @@ func (env *Env) eval(x ast.Expr) Val {
 		if v, ok := env.lookupScope(x.Name); ok {
 			return v
 		}
+		// a package-level function used as a value
+		if fn := e.pkg.Func(x.Name); fn != nil {
+			return Val{T: fn.Type(), C: []string{e.funcID(fn)}, Clos: &ClosVal{Fn: fn}}
+		}
 		env.fail(x, "unknown identifier %s", x.Name)
 	case *ast.SelectorExpr:
 		// package-qualified identifier?
